@@ -394,6 +394,23 @@ EXTRA_N = {
  'C13': 'The reference values of a selector reach the predicate as the caller gave them (R13.12).',
  'C20': 'The key-less simple aggregate yields its row on a header-only table (R20.11: C09 R9.6 imported).',
 }
+EXTRA_O = {
+ 'C01': 'The completeness flag of cache() is raised only after the loop over the inner table ended normally (not in a finally); writes to a view through an iterator-function parameter count as shared state.',
+ 'C02': 'An argument the code itself tests for being a petl container is not materialised while the pipeline is built (R2.8).',
+ 'C04': 'The evaluator decides native <=, >, >= as well; the fallback key getter distinguishes one position from several (R4.4).',
+ 'C05': 'No Pickler / Unpickler object (memo spanning records) for the rows of a chunk file (R5.14).',
+ 'C06': 'Every Comparable(...) call creates a new object, so the nokey sentinel stays distinguishable by identity (R6.16); crossjoin squares its inputs up by position (R6.1).',
+ 'C07': 'The three lookup builders agree on the write-back of the per-key list (R7.2); options of the hash join functions reach the views (R7.12).',
+ 'C09': 'The missing marker is compared by value (R9.18: C12 R12.11 imported); key extraction (C04 R4.4) is part of R9.16.',
+ 'C10': 'The four run detectors build their key getter the same way (R10.9).',
+ 'C11': 'The chunk-file cache is published only when complete and read back with one pickle.load per row (C05 R5.11 / R5.14 imported into R11.6).',
+ 'C13': 'Comparable(value) is transparent for ordering predicates only; select views keep no state written by their iterators (R13.13).',
+ 'C15': 'Writers and their tee twins agree (R15.14: C16 R16.2 imported); arguments passed by position arrive under their own names (R15.15).',
+ 'C16': 'Tee views store their options as given (R16.6); the completeness flag of cache() only on normal exhaustion (R16.4).',
+ 'C17': 'The statement that empties the target and the insert name the same table on every path (R17.8).',
+ 'C18': 'An owner (list) passed as a lazy logging argument is an escape (R18.3); cached passes merge with the key and direction the chunks were sorted with (R18.9).',
+ 'C19': 'Extra tests in the policy handler are enumerated: the outcome is a function of the policy alone, and errorvalue is delivered bare (R19.1).',
+}
 ROBUST = (' All rules are evaluated on functions in expanded form (bounded inlining of helpers unknown to the rules) and, where '
           'they evaluate decision ladders, on canonical tests and effect sequences rather than statement texts (DESIGN.md §9).')
 for _p, _t in EXTRA_D.items():
@@ -411,6 +428,8 @@ for _p, _t in EXTRA_F.items():
 for _p, _t in EXTRA_G.items():
     CLAIMS[_p]['text'] = CLAIMS[_p]['text'] + ' ' + _t
 for _p, _t in EXTRA_N.items():
+    CLAIMS[_p]['text'] = CLAIMS[_p]['text'] + ' ' + _t
+for _p, _t in EXTRA_O.items():
     CLAIMS[_p]['text'] = CLAIMS[_p]['text'] + ' ' + _t
 
 PENDING = 'check not yet implemented in this revision (work in progress; see DESIGN.md for the planned rules)'
